@@ -42,21 +42,53 @@
   and semantics but is not composed with this theorem for the same reason as (2).
 -/
 import RotoV.Lemmas.C01Agree
+import RotoV.Lemmas.C01Shape
+import RotoV.Lemmas.C01MirOps
 import RotoV.Props.C08
+import RotoV.Model.NativeFloat
 
 namespace RotoV.C01Lower
-open RotoV RotoV.C01Resolve RotoV.C01Agree RotoV.LowerS
+open RotoV RotoV.C01Resolve RotoV.C01Agree RotoV.LowerS RotoV.C01MirRun RotoV.C01MirOps
+open RotoV.Gen RotoV.Gen.OpTables
+
+/-! ## the fragment -/
+
+/-- The lowering model is defined on every program of the common fragment: the hypothesis
+    `lowerProg fnsT = some P` of the theorems below is met by every resolved program. -/
+theorem resolve_lowers (fnsS : List Spec.FnDef) (fnsT : List TraceSpec.FnDef) (h : resolve fnsS = some fnsT) :
+    ∃ P, lowerProg fnsT = some P :=
+  C01Shape.resolve_lowers fnsS fnsT h
+
+/-- non-vacuity: a program with a helper called twice, shadowing, compound assignment, a loop,
+    `if` without `else` and an early `return` is in the fragment. -/
+def demo : List Spec.FnDef := [
+  ⟨"f", [("n", .int .i32), ("acc", .int .i32)], .int .i32,
+    .mk [.expr (.ite (.bin .eq (.var "n") (.lit (.int .i32 0))) (.mk [.expr (.ret (some (.var "acc")))] none) none)]
+        (some (.call "f" [.bin .sub (.var "n") (.lit (.int .i32 1)), .bin .mul (.var "acc") (.var "n")]))⟩,
+  ⟨"main", [("a", .int .i32)], .int .i32,
+    .mk [.let_ "x" (.bin .add (.var "a") (.lit (.int .i32 1))), .let_ "a" (.var "x"),
+         .expr (.cassign .add "a" (.var "x")), .let_ "k" (.lit (.int .i32 0)),
+         .expr (.while (.bin .and (.bin .lt (.var "k") (.lit (.int .i32 3))) (.not (.lit (.bool false))))
+            (.mk [.expr (.cassign .add "k" (.lit (.int .i32 1))), .expr (.cassign .mul "a" (.lit (.int .i32 2)))] none))]
+        (some (.bin .add (.var "a") (.call "f" [.lit (.int .i32 5), .lit (.int .i32 1)])))⟩]
+
+example : (resolve demo).isSome = true := by decide
+example : ((resolve demo).bind lowerProg).isSome = true := by decide
+
+/-! ## T5 -/
 
 /-- **T5 `lower_correct_partial`.**  For every program `fnsS` of the common fragment
-    (`resolve fnsS = some fnsT`) on which the lowering model is defined, all arguments of the
-    fragment and every fuel: if C01's reference interpreter yields `v` for a call of `main`, then
-    the structured MIR of `main` emitted by the lowering model, run from the store that holds
-    exactly the arguments, returns (the encoding of) `v` — and that is its only behaviour. -/
+    (`resolve fnsS = some fnsT`; the lowering model is then defined: `resolve_lowers`), all
+    arguments of the fragment and every fuel: if C01's reference interpreter yields `v` for a
+    call of `main`, then the structured MIR of `main` emitted by the lowering model, run from the
+    store that holds exactly the arguments, returns (the encoding of) `v` — and that is its only
+    behaviour. -/
 theorem lower_correct_partial [FloatOps] (fnsS : List Spec.FnDef) (fnsT : List TraceSpec.FnDef) (P : Prog)
     (hres : resolve fnsS = some fnsT) (hP : lowerProg fnsT = some P)
     (fuel : Nat) (args : List Spec.Val) (args' : List TraceSpec.Val) (henc : encArgs args = some args')
     (v : Spec.Val) (h : Spec.run fnsS fuel args = .ok v) :
     ∃ fd code cenv v', fnsT.getLast? = some fd ∧ lowerFn fd = some code
+      ∧ P[fnsT.length - 1]? = some (fd.params, code)
       ∧ TraceSpec.bindParams fd.params args' [] = some cenv ∧ encVal v = some v'
       ∧ (∃ t, ExecC P (storeOfEnv cenv) code t (.returned v'))
       ∧ ∀ t' o', ExecC P (storeOfEnv cenv) code t' o' → o' = .returned v' := by
@@ -70,8 +102,90 @@ theorem lower_correct_partial [FloatOps] (fnsS : List Spec.FnDef) (fnsT : List T
     | none => simp [TraceSpec.run, hlast, hb] at hrun
     | some cenv =>
       have hmem : fnsT[fnsT.length - 1]? = some fd := by rw [← List.getLast?_eq_getElem?]; exact hlast
-      obtain ⟨code, hcode, _⟩ := lowerProg_ok fnsT P hP _ fd hmem
+      obtain ⟨code, hcode, hPc⟩ := lowerProg_ok fnsT P hP _ fd hmem
       obtain ⟨h1, h2⟩ := C08.lowerS_run_partial fnsT P hP fd code M args' cenv v' hlast hcode hb hrun
-      exact ⟨fd, code, cenv, v', rfl, hcode, hb, hv', ⟨_, h1⟩, fun t' o' h' => (h2 t' o' h').2⟩
+      exact ⟨fd, code, cenv, v', rfl, hcode, hPc, hb, hv', ⟨_, h1⟩, fun t' o' h' => (h2 t' o' h').2⟩
+
+/-- non-vacuity: `Spec.run` yields a value on the demonstration program (`main(5)` is 216), and
+    arguments of the fragment exist. -/
+example [FloatOps] : Spec.run demo 60 [.int .i32 5] = .ok (.int .i32 216) := by rfl
+example : encArgs [.int .i32 5] = some [.int 5] := by decide
+
+/-! ## the operators inside the MIR semantics are the generated table composition -/
+
+section
+variable [FloatOps]
+
+/-- **`mir_binop_generated`.**  What the MIR semantics (`LowerS.evalValue`) computes for
+    `binop l op r` on two `i32` operands in range is what the GENERATED `lower_binop` at
+    `Primitive.Int Signed I32` followed by the generated codegen arm on CLIF semantics computes on
+    their SSA values, in both build profiles; on two booleans (`==`, `!=`) likewise at
+    `Primitive.Bool`. -/
+theorem mir_binop_generated (dbg : Bool) (σ : Store) (l r : Var) (op : TraceSpec.BinOp) :
+    (∀ x y, σ l = .int x → σ r = .int y → inI32 x = true → inI32 y = true →
+      ∃ w i cw, evalValue σ (.binop l op r) = some ([], w)
+        ∧ lower_binop dbg (genOp op) (.Primitive (.Int .Signed .I32)) = .ok i ∧ cvOf w = some cw
+        ∧ runInstr dbg i (operands (cvI32 x) (cvI32 y)) = .ok cw)
+    ∧ (∀ x y t w, σ l = .bool x → σ r = .bool y → evalValue σ (.binop l op r) = some (t, w) →
+      ∃ i cw, lower_binop dbg (genOp op) (.Primitive .Bool) = .ok i ∧ cvOf w = some cw
+        ∧ runInstr dbg i (operands (CVal.ofBool x) (CVal.ofBool y)) = .ok cw) := by
+  constructor
+  · intro x y hl hr hx hy
+    obtain ⟨w, i, cw, h1, h2, h3, h4⟩ := binop_int_generated dbg op x y hx hy
+    exact ⟨w, i, cw, by simp [evalValue, hl, hr, h1], h2, h3, h4⟩
+  · intro x y t w hl hr h
+    simp only [evalValue, hl, hr, Option.map_eq_some_iff] at h
+    obtain ⟨w', hw, heq⟩ := h
+    cases heq
+    exact binop_bool_generated dbg op x y _ hw
+
+/-- non-vacuity: `7 - 9` on `i32` is `-2` in the MIR semantics, and `-2` is in range. -/
+example : TraceSpec.binop .sub (.int 7) (.int 9) = some (.int (-2)) ∧ inI32 (-2) = true := by decide
+
+/-- **`mir_unop_generated`.**  Unary `-` and `!` of the MIR semantics are the generated `Negate`
+    (`ineg`) and `Not` (`icmp_imm eq 0`) arms on the SSA values. -/
+theorem mir_unop_generated (dbg : Bool) (σ : Store) (x : Var) :
+    (∀ n, σ x = .int n → inI32 n = true →
+      ∃ w cw, evalValue σ (.neg x) = some ([], w) ∧ cvOf w = some cw ∧ cg_Negate dbg (cvI32 n) = .ok cw)
+    ∧ (∀ b, σ x = .bool b →
+      ∃ w cw, evalValue σ (.not x) = some ([], w) ∧ cvOf w = some cw ∧ cg_Not dbg (CVal.ofBool b) = .ok cw) := by
+  constructor
+  · intro n hn hr
+    exact ⟨.int (TraceSpec.wrap32 (-n)), _, by simp [evalValue, hn], rfl, neg_generated dbg n hr⟩
+  · intro b hb
+    exact ⟨.bool (!b), _, by simp [evalValue, hb], rfl, not_generated dbg b⟩
+
+example : inI32 (-2147483648) = true ∧ TraceSpec.wrap32 (-(-2147483648)) = -2147483648 := by decide
+
+/-! ## the executable composed model (the driver's second oracle) -/
+
+/-- **`lower_correct_run_partial`.**  The executable semantics `C01MirRun.runMain` — structured MIR
+    of the lowering model run with the generated table composition as its operators — can only
+    return the value `Spec` defines: for every program of the fragment, all arguments and fuels, if
+    `Spec.run` yields `v` and `runMain` returns `w`, then `w` is (the encoding of) `v`.  (That
+    `runMain` does return on a given program and arguments is observed by the driver on every
+    generated case; it is not part of this theorem.) -/
+theorem lower_correct_run_partial (fnsS : List Spec.FnDef) (fnsT : List TraceSpec.FnDef) (P : Prog)
+    (hres : resolve fnsS = some fnsT) (hP : lowerProg fnsT = some P)
+    (fuel fuel' : Nat) (args : List Spec.Val) (args' : List TraceSpec.Val) (henc : encArgs args = some args')
+    (v : Spec.Val) (h : Spec.run fnsS fuel args = .ok v) (w : TraceSpec.Val)
+    (hw : runMain fnsT P fuel' args' = some w) : encVal v = some w := by
+  obtain ⟨fd, code, cenv, v', hlast, hcode, hPc, hb, hv', _, huniq⟩ :=
+    lower_correct_partial fnsS fnsT P hres hP fuel args args' henc v h
+  simp only [runMain, hlast, hPc, hb] at hw
+  split at hw
+  · rename_i t w' hex
+    cases hw
+    have := huniq _ _ ((exec_sound P fuel').2.2 _ _ _ _ hex)
+    cases this
+    exact hv'
+  · cases hw
+
+/-- non-vacuity: on the demonstration program the executable model returns, with the same value. -/
+example : (letI : FloatOps := nativeFloatOps
+    (resolve demo).bind fun q => (lowerProg q).bind fun P => runMain q P 400 [.int 5]) = some (.int 216) := by
+  decide +kernel
+
+end
 
 end RotoV.C01Lower
